@@ -161,6 +161,9 @@ func zzC10rEncode(val interface{}) ([]byte, error) {
 type zzC10rNestedKS struct{ b []byte }
 
 func zzC10rEncodeTo(w io.Writer, val interface{}) error {
+	if pp, ok := val.(**pendingRelationship); ok && *pp != nil {
+		val = *pp // the codec dereferences pointers until it finds an Encoder
+	}
 	if e, ok := val.(rlp.Encoder); ok {
 		return e.EncodeRLP(w)
 	}
@@ -519,5 +522,105 @@ func zzH_C10_copy_midtx() {
 	direct, viaCopy := commit(false, pending), commit(true, pending)
 	zzverif.Reach("both-committed")
 	zzverif.AssertKF(zzC10rSame(direct, viaCopy, false), "a copy taken mid-transaction commits what the original commits", "C10-copy-mid-transaction-selfdestruct", pending == 0)
+	zzverif.Reach("end")
+}
+
+// ---- the staking trie: records of pending staking actions and pending relationships ----
+
+type zzC10sObs struct {
+	val    [2]*big.Int
+	hashes [2]int
+	last   [2]common.Hash
+	rel    [2]bool
+	dcount int
+	vcount int
+}
+
+func zzC10sObserve(s *StateDB) zzC10sObs {
+	var o zzC10sObs
+	d := zzAddr(7)
+	for i := 0; i < 2; i++ {
+		v := zzValAddr(i + 1)
+		o.val[i] = new(big.Int).Set(s.GetStakingRecordValue(d, v))
+		if r := s.GetStakingRecord(d, v); r != nil {
+			o.hashes[i] = len(r.TxHashes)
+			if len(r.TxHashes) > 0 {
+				o.last[i] = r.TxHashes[len(r.TxHashes)-1]
+			}
+		}
+		o.rel[i] = s.PendingRelationshipExist(d, v)
+	}
+	o.dcount = s.DelegatorPendingCount(d)
+	o.vcount = s.ValidatorPendingCount(zzValAddr(1))
+	return o
+}
+
+func zzC10sSame(x, y zzC10sObs) bool {
+	return zzverif.All(x.val[0].Cmp(y.val[0]) == 0, x.val[1].Cmp(y.val[1]) == 0, x.hashes == y.hashes, x.last == y.last, x.rel == y.rel, x.dcount == y.dcount, x.vcount == y.vcount)
+}
+
+type zzC10sOp struct {
+	kind, who int
+	val       *big.Int
+	del       bool
+}
+
+func zzC10sApply(s *StateDB, k int, op zzC10sOp, flush bool) {
+	d, v := zzAddr(7), zzValAddr(op.who+1)
+	switch op.kind {
+	case 0:
+		s.AddStakingRecord(d, v, common.Hash{0x60, byte(k)}, op.val)
+	case 1:
+		s.AddPendingRelationship(d, v)
+	case 2:
+		if flush {
+			s.IntermediateRoot(op.del)
+		} else {
+			s.Finalise(op.del)
+		}
+	case 3:
+		if flush {
+			s.Commit(op.del)
+		} else {
+			s.Finalise(op.del)
+		}
+	}
+}
+
+// zzH_C10_reopen_staking: staking records and pending relationships written in any order with
+// intermediate roots and commits at arbitrary positions: the state reopened from the committed
+// roots shows what the live object shows, and what a twin run shows that flushed only once.
+func zzH_C10_reopen_staking() {
+	nops := zzverif.Bound("operations (staking trie)", 3, 4)
+	ops := make([]zzC10sOp, nops)
+	for i := range ops {
+		ops[i] = zzC10sOp{kind: zzverif.Choose("op", 4), who: zzverif.Choose("op.validator", 2), val: zzverif.Big("op.value", 64), del: zzverif.Bool("op.deleteEmpty")}
+	}
+	a := zzC10rNew()
+	for k, op := range ops {
+		zzC10sApply(a, k, op, true)
+	}
+	root, valRoot, stakingRoot, err := a.Commit(true)
+	zzverif.Assert(err == nil && a.Error() == nil, "commit succeeds")
+	ra, err := New(root, valRoot, stakingRoot, zzC10rDB)
+	zzverif.Assert(err == nil, "the committed roots open")
+	if err != nil {
+		return
+	}
+	zzverif.Reach("reopened")
+	live, reopened := zzC10sObserve(a), zzC10sObserve(ra)
+	zzverif.Assert(zzC10sSame(live, reopened), "the staking trie reopened from the committed roots shows the records and pending relationships of the live object")
+	b := zzC10rNew()
+	for k, op := range ops {
+		zzC10sApply(b, k, op, false)
+	}
+	rootB, valRootB, stakingRootB, err := b.Commit(true)
+	zzverif.Assert(err == nil && b.Error() == nil, "commit succeeds (single flush)")
+	rb, err := New(rootB, valRootB, stakingRootB, zzC10rDB)
+	zzverif.Assert(err == nil, "the committed roots open (single flush)")
+	if err != nil {
+		return
+	}
+	zzverif.Assert(zzC10sSame(reopened, zzC10sObserve(rb)), "committed staking content does not depend on where intermediate roots and commits were taken")
 	zzverif.Reach("end")
 }
